@@ -35,7 +35,12 @@ const enginePrelude = `//go:build verif
 
 package %s
 
-import "context"
+import (
+	"context"
+	"crypto/rc4"
+)
+
+var _ = rc4.NewCipher
 
 func vLiveContext() context.Context      { return nil }
 func vU8(name string) uint8              { return 0 }
@@ -70,6 +75,7 @@ func vHavocBytes(b []byte, name string)  {}
 func vBencode(v interface{}) []byte      { return nil }
 func vUnsafeClass(k int)                 {}
 func vTickers(mask, budget int)          {}
+func vCipherPos(c *rc4.Cipher) int       { return 0 }
 func vOutUnsafe() bool                   { return false }
 func vLastEncoded() interface{}          { return nil }
 func vAnd(a, b bool) bool                { return a && b }
